@@ -1681,12 +1681,16 @@ pub(crate) fn handle_try_operator_constraints(ctx: &mut StaticsContext) {
 
         constrain(ctx, &tried_expr_residual_ty, &ret_ty_residual_ty);
 
-        let fn_branch_signature =
-            TypeVar::from_node(ctx, imp.get_method_by_name("branch").unwrap().name.node());
-        let fn_from_residual_signature = TypeVar::from_node(
-            ctx,
-            imp.get_method_by_name("from_residual").unwrap().name.node(),
-        );
+        // an incomplete implementation of Try has already been reported
+        let (Some(branch_method), Some(from_residual_method)) = (
+            imp.get_method_by_name("branch"),
+            imp.get_method_by_name("from_residual"),
+        ) else {
+            continue;
+        };
+        let fn_branch_signature = TypeVar::from_node(ctx, branch_method.name.node());
+        let fn_from_residual_signature =
+            TypeVar::from_node(ctx, from_residual_method.name.node());
 
         let tried_expr_ty = TypeVar::from_node(ctx, tried_expr_node.clone());
         let tried_ty_subst = get_substitution_of_typ(ctx, &imp.typ, &tried_expr_ty);
